@@ -196,6 +196,9 @@ func workloadSpecProjection(obj interface{}) string {
 		if zero(us["partition"]) {
 			delete(us, "partition")
 		}
+		if zero(us["maxSurge"]) { // Kruise defaults an absent maxSurge to 0
+			delete(us, "maxSurge")
+		}
 		if p, ok := us["paused"].(bool); ok && !p {
 			delete(us, "paused")
 		}
